@@ -23,7 +23,8 @@ use tokio::sim::{self, Rng};
 
 pub const TENANTS: [&str; 3] = ["", "t1", "tenant-two"];
 pub const GROUPS: [&str; 2] = ["DEFAULT_GROUP", "g2"];
-pub const DATA_IDS: [&str; 5] = ["app", "app.yaml", "app.yaml.bak", "db_conf", "x"];
+/// (the last one differs from the second only where that one has a dot: a fuzzy search must not read the dot as a wildcard)
+pub const DATA_IDS: [&str; 6] = ["app", "app.yaml", "app.yaml.bak", "db_conf", "x", "app-yaml"];
 
 #[derive(Serialize, Deserialize, Clone, Debug, PartialEq)]
 #[serde(tag = "op")]
